@@ -69,6 +69,8 @@ func corpusGraph() []*modSpec {
 		mk("graph-recursive-containers", "package models\n\ntype Tree map[string]Tree\ntype MA map[string]MB\ntype MB map[int]MA\ntype Nest []Nest\ntype Deep map[string][]Deep\ntype Grid [2]Cells\ntype Cells []Grid\n\ntype S struct {\n\tT Tree\n\tA MA\n\tN Nest\n\tD Deep\n\tG Grid\n}\n"),
 		mk("graph-named-over-named", "package models\n\ntype N1 int\ntype N2 N1\ntype L1 []N2\ntype L2 L1\ntype S struct {\n\tA N2\n\tB L2\n}\n"),
 		mk("graph-time", "package models\n\nimport \"time\"\n\ntype MyDate time.Time\ntype Moment time.Time\ntype UpdateDay MyDate\n\ntype S struct {\n\tT time.Time\n\tD MyDate\n\tM Moment\n\tU UpdateDay\n\tL []time.Time\n}\n"),
+		mk("graph-own-package-named-time", "package models\n\nimport (\n\t\"time\"\n\n\tmytime \"example.com/org/models/time\"\n)\n\ntype Event struct {\n\tStd time.Time\n\tAt mytime.Stamp\n\tDay mytime.Date\n\tStamps []mytime.Stamp\n\tByDay map[string]mytime.Date\n}\n\ntype Local time.Time\n",
+			modFile{"time/time.go", "package time\n\nimport stdtime \"time\"\n\ntype Stamp stdtime.Time\n\ntype Date stdtime.Time\n"}),
 		mk("graph-generic", "package models\n\ntype IdX int64\n\ntype S struct {\n\tA Generic[IdX]\n\tB Generic[int]\n\tC Generic[S2]\n}\n\ntype S2 struct{ V string }\n", modFile{"other.go", "package models\n\ntype Generic[T any] struct {\n\tV T\n\tValid bool\n}\n"}),
 		mk("graph-stdlib", "package models\n\nimport (\n\t\"database/sql\"\n\t\"time\"\n)\n\ntype S struct {\n\tN sql.NullInt64\n\tS sql.NullString\n\tD time.Duration\n\tW time.Weekday\n}\n"),
 		mk("graph-alias", "package models\n\ntype Real struct{ X int }\ntype Alias = Real\ntype AL = []Real\n\ntype S struct {\n\tA Alias\n\tB AL\n\tC Real\n}\n"),
@@ -113,6 +115,8 @@ func corpusCrash() []*modSpec {
 		mk("nullable-wrapper-of-named-time", std, "models", "import \"time\"\n\ntype Birthday time.Time\ntype Date time.Time\n\ntype OptBirthday struct {\n\tValid bool\n\tDate Birthday\n}\n\ntype NullDate struct {\n\tD Date\n\tValid bool\n}\n\ntype Person struct {\n\tId int64\n\tB OptBirthday\n\tD NullDate\n}\n"),
 		mk("multi-name-const", std, "models", "type K int\n\nconst KA, KB K = 0, 1\n\ntype S struct{ V K }\n"),
 		mk("generic-basic-arg", std, "models", "type S struct {\n\tA Generic[int]\n\tB Generic[string]\n}\n", modFile{"other.go", "package models\n\ntype Generic[T any] struct {\n\tV T\n\tValid bool\n}\n"}),
+		mk("generic-composite-arg", std, "models", "type S struct {\n\tA Generic[[]string]\n\tB Generic[map[string]int]\n\tC Generic[[2]int]\n}\n", modFile{"other.go", "package models\n\ntype Generic[T any] struct {\n\tV T\n\tValid bool\n}\n"}),
+		mk("generic-two-args", std, "models", "type K int\ntype S struct {\n\tA Pair[K, string]\n\tB Pair[string, []K]\n}\n", modFile{"other.go", "package models\n\ntype Pair[A comparable, B any] struct {\n\tFirst A\n\tSecond B\n}\n"}),
 		mk("generic-named-arg", std, "models", "type IdX int64\ntype S struct {\n\tA Generic[IdX]\n}\n", modFile{"other.go", "package models\n\ntype Generic[T any] struct {\n\tV T\n\tValid bool\n}\n"}),
 		mk("named-pointer", std, "models", "type T struct{ X int }\ntype P *T\ntype S struct{ V P }\n"),
 		mk("self-pointer", std, "models", "type P *P\ntype S struct{ V P }\n"),
